@@ -142,4 +142,25 @@ def timelineFixed (frames : List Frame) (stored : Option (List Entry)) (q : Quer
     | none => none
     | some indexed => some (buildTimelineFixed frames (some indexed) q)
 
+/-! ### vocabulary of the property statements (MvProps/C15.lean) -/
+
+/-- `toc.frames[i].id = i`: ids are assigned as `toc.frames.len()` at insertion (property C06); the
+    harness checks it on every frame table it reads back -/
+def DenseIds (frames : List Frame) : Prop := ∀ i (h : i < frames.length), (frames[i]).id = i
+
+/-- what the timeline is supposed to list: one entry per active frame whose role is not chunk
+    (documents and extracted images), in frame-table order -/
+def listedEntries (frames : List Frame) : List Entry := (frames.filter listedRole).map entryOf
+
+/-- strict tuple order on `(timestamp, frame_id)` -/
+def Entry.lt (a b : Entry) : Prop := a.ts < b.ts ∨ (a.ts = b.ts ∧ a.id < b.id)
+
+/-- chronological: strictly ascending by `(timestamp, frame_id)`, strictly descending when reversed
+    (strictness also says that no entry occurs twice) -/
+def Chrono (reverse : Bool) (l : List Entry) : Prop :=
+  if reverse then l.Pairwise (fun a b => b.lt a) else l.Pairwise Entry.lt
+
+/-- the query without its limit -/
+def Query.unlimited (q : Query) : Query := { q with limit := none }
+
 end Mv.Timeline
